@@ -588,8 +588,14 @@ package engine
 //@   modifies *s, elems(*s)
 //@   loop 1 invariant len(*s) <= old(len(*s)) && backing(*s) == old(backing(*s)) && offset(*s) == old(offset(*s))
 //@   loop 1 invariant forall j int :: 0 <= j && j < len(*s) ==> (*s)[j] == old((*s)[j])
-//@   loop 1 invariant forall j int :: len(*s) <= j && j < old(len(*s)) ==> old((*s)[j]) != p
+//@   loop 2 invariant -1 <= i && i < old(len(*s))
+//@   loop 2 invariant forall j int :: i < j && j < old(len(*s)) ==> old((*s)[j]) != p
+//@   loop 3 invariant 0 <= i && i <= len(*s) && len(*s) <= old(len(*s)) && backing(*s) == old(backing(*s)) && offset(*s) == old(offset(*s))
+//@   loop 3 invariant old((*s)[i]) == p
+//@   loop 3 invariant forall j int :: 0 <= j && j < len(*s) ==> (*s)[j] == old((*s)[j])
+//@   loop 3 invariant forall j int :: i < j && j < old(len(*s)) ==> old((*s)[j]) != p
 //@   ensures[prefix] len(*s) <= old(len(*s)) && forall j int :: 0 <= j && j < len(*s) ==> (*s)[j] == old((*s)[j])
-//@   ensures[since] (exists i int :: 0 <= i && i < old(len(*s)) && old((*s)[i]) == p) ==>
-//@       len(*s) < old(len(*s)) && old((*s)[now(len(*s))]) == p && forall j int :: len(*s) < j && j < old(len(*s)) ==> old((*s)[j]) != p
-//@   ensures[nothing-older] (forall i int :: 0 <= i && i < old(len(*s)) ==> old((*s)[i]) != p) ==> len(*s) == old(len(*s))
+//@   ensures[since] p != &dummyCutParent && (exists i int :: 0 <= i && i < old(len(*s)) && old((*s)[i]) == p) ==>
+//@       result && len(*s) < old(len(*s)) && old((*s)[now(len(*s))]) == p && forall j int :: len(*s) < j && j < old(len(*s)) ==> old((*s)[j]) != p
+//@   ensures[nothing-older] p != &dummyCutParent && (forall i int :: 0 <= i && i < old(len(*s)) ==> old((*s)[i]) != p) ==> !result && len(*s) == old(len(*s))
+//@   ensures[dummy] p == &dummyCutParent ==> !result && len(*s) == 0
